@@ -1,6 +1,7 @@
 import XlModel.Bstr
 import XlModel.SaveGrid
 import XlModel.SaveCols
+import XlModel.SaveBook
 import XlModel.Drv.Util
 /-
 Line protocol of C01 (see harness/cmd/vh/c01.go):
@@ -12,6 +13,10 @@ Line protocol of C01 (see harness/cmd/vh/c01.go):
   trim <grid>     trimRow                          -> ok <grid>
   dens <grid>     checkSheet; checkRow             -> ok <grid> | ERR | PANIC
   cycle <grid>    trimRow; (xml); checkSheet; checkRow
+  hbook <book>    sheet list / visibility / active tab / merged ranges / defined names of a generated workbook
+                  before a real save; answer = the same after OpenReader (model: SaveBook.cycleBook)
+  setint <n>      SetCellInt on A1 of a real file: raw value before, after save+open, type, displayed value
+  setbool <0|1>   SetCellBool likewise
   mcols <cols>    mergeExpandedCols (hook)         -> ok <cols>
   hmcols <cols>   same; <cols> = a sheet's column definitions before a real save, answer = after OpenReader
   hcycle <grid>   same; the implementation side is a real save + open of a workbook
@@ -109,6 +114,81 @@ def stepCols (w : List String) : String :=
     | none => "bad-op"
   | [] => "bad-op"
 
+/-! workbook-level ops -/
+open XlModel.SaveBook
+
+def parseVis (s : String) : Option Vis :=
+  if s = "v" then some .visible else if s = "h" then some .hidden else if s = "vh" then some .veryHidden else none
+
+def showVis : Vis → String
+  | .visible => "v" | .hidden => "h" | .veryHidden => "vh"
+
+def parseStrs : Nat → List String → Option (List (List Char) × List String)
+  | 0, w => some ([], w)
+  | n + 1, h :: w => match decodeU h with
+    | some s => (parseStrs n w).map fun (l, w') => (s :: l, w')
+    | none => none
+  | _, _ => none
+
+def parseSheets : Nat → List String → Option (List Sheet × List String)
+  | 0, w => some ([], w)
+  | n + 1, nm :: vis :: k :: w =>
+    match decodeU nm, parseVis vis, k.toNat? with
+    | some nm, some vis, some k => match parseStrs k w with
+      | some (ms, w') => (parseSheets n w').map fun (l, w'') => (⟨nm, vis, [], [], ms⟩ :: l, w'')
+      | none => none
+    | _, _, _ => none
+  | _, _ => none
+
+def parseNames : Nat → List String → Option (List DefName × List String)
+  | 0, w => some ([], w)
+  | n + 1, nm :: rf :: cm :: sc :: w =>
+    match decodeU nm, decodeU rf, decodeU cm with
+    | some nm, some rf, some cm =>
+      let scope := if sc = "~" then some none else sc.toNat?.map some
+      match scope with
+      | some scope => (parseNames n w).map fun (l, w') => (⟨nm, rf, cm, scope⟩ :: l, w')
+      | none => none
+    | _, _, _ => none
+  | _, _ => none
+
+def showBook (b : Book) : String :=
+  s!"{b.active} {b.sheets.length}" ++
+  String.join (b.sheets.map fun s => s!" {encodeU s.name} {showVis s.vis} {s.merges.length}" ++ String.join (s.merges.map fun m => " " ++ encodeU m)) ++
+  s!" {b.names.length}" ++
+  String.join (b.names.map fun d => s!" {encodeU d.name} {encodeU d.refersTo} {encodeU d.comment} " ++
+    (match d.scope with | none => "~" | some k => toString k))
+
+def stepBook (w : List String) : String :=
+  match w with
+  | act :: ns :: rest =>
+    match act.toNat?, ns.toNat? with
+    | some act, some ns => match parseSheets ns rest with
+      | some (sheets, nn :: rest') => match nn.toNat? with
+        | some nn => match parseNames nn rest' with
+          | some (names, []) =>
+            match cycleBook Bstr.xmlGo ⟨sheets, act, names, []⟩ with
+            | .ok b => "ok " ++ showBook b
+            | _ => "E_OPEN"
+          | _ => "bad-op"
+        | none => "bad-op"
+      | _ => "bad-op"
+    | _, _ => "bad-op"
+  | _ => "bad-op"
+
+/-- one cell `A1` with the given content on a dense one-row sheet, through the whole workbook cycle:
+raw value before, raw value after, displayed boolean text after -/
+def stepCellText (k : Grid.Content) : String :=
+  let cell : Grid.Cell := ⟨"A1".toList, k.s, k.t, k.v, k.f, k.is⟩
+  let b : Book := ⟨[⟨"Sheet1".toList, .visible, [⟨1, Grid.emptyAttrs, [cell]⟩], [], []⟩], 0, [], []⟩
+  match cycleBook Bstr.xmlGo b with
+  | .ok b' => match b'.sheets with
+    | s' :: _ =>
+      let k' := Grid.abs s'.rows 0 0
+      s!"raw={encodeU (rawValue b.sst k)} re={encodeU (rawValue b'.sst k')} t={encodeU k'.t} shown={encodeU (if k'.t = ['b'] then boolText (rawValue b'.sst k') else rawValue b'.sst k')}"
+    | [] => "E_OPEN"
+  | _ => "E_OPEN"
+
 def step (w : List String) : String :=
   match w with
   | ["bm", h] => match decodeU h with
@@ -132,6 +212,11 @@ def step (w : List String) : String :=
   | "cycle" :: g => match parseGrid g with
     | some rs => showRes (cycle rs)
     | none => "bad-op"
+  | "hbook" :: g => stepBook g
+  | ["setint", n] => match n.toInt? with
+    | some n => stepCellText ⟨0, [], Ref.itoaInt n, none, none⟩
+    | none => "bad-op"
+  | ["setbool", b] => stepCellText ⟨0, ['b'], if b = "1" then ['1'] else ['0'], none, none⟩
   | "mcols" :: g => stepCols g
   | "hmcols" :: g => stepCols g
   | "hcycle" :: g => match parseGrid g with
